@@ -138,6 +138,11 @@ def judge(ctx, case, r, prefix="C08"):
         ctx.violation("%s|exit|rc=%s" % (prefix, r.rc), "exit status %s" % r.rc, src_dir=case["d"], info=info)
         return
     got_type = chosen_type(r.err)
+    if prefix != "C08":
+        # layout selection, the stray NUL and full-width fields are C08's own subject
+        if not getattr(lay, "selectable", True) or (got_type is not None and got_type != lay.name) or (got_type is None and case["full"]):
+            ctx.count("cases left to C08 (layout selection)")
+            return
     if not getattr(lay, "selectable", True):
         if got_type != lay.name:
             ctx.violation("%s|layout-cannot-be-selected|%s" % (prefix, lay.name), "records of layout %s in a file named %s are read as %s" % (
@@ -153,10 +158,14 @@ def judge(ctx, case, r, prefix="C08"):
             sig = "%s|wrong-layout-chosen|full-width-fields-and-size-divisible-by-both" % prefix
         ctx.violation(sig, "file of %d %s records read as %s" % (case["n"], lay.name, got_type), src_dir=case["d"], info=info)
         return
+    if got_type is None and case["full"] and not r.out and want:
+        ctx.violation("%s|no-layout-chosen|full-width-fields" % prefix, "file of %d full-width %s records: no layout scored high enough, nothing printed (stderr %r)" % (
+            case["n"], lay.name, r.err[:120]), src_dir=case["d"], info=info)
+        return
     out = r.out
     nul = b"\n\x00" in out
     lines = fsgen.split_printed(out)
-    if nul:
+    if nul and prefix == "C08":
         ctx.violation("%s|nul-byte-after-each-record" % prefix, "a NUL byte follows the newline of every record", src_dir=case["d"], info=info)
     got = []
     for ln in lines:
